@@ -6,6 +6,9 @@ pub enum Link {
     Eth,
     Sll,
     BareIp,
+    /// no link header: the frame starts behind an (unseen) Ethernet header
+    /// and is sliced with `from_ether_type`
+    EtherPayload,
 }
 
 impl Link {
@@ -14,6 +17,7 @@ impl Link {
             Link::Eth => "eth",
             Link::Sll => "sll",
             Link::BareIp => "ip",
+            Link::EtherPayload => "et",
         }
     }
 }
@@ -118,7 +122,7 @@ pub fn encode_link(h: &HostCfg, inner: u16, fill: u8) -> Vec<u8> {
             out.extend_from_slice(&[fill ^ 0x33; 8]);
             out.extend_from_slice(&first_type.to_be_bytes());
         }
-        Link::BareIp => {}
+        Link::BareIp | Link::EtherPayload => {}
     }
     for (i, (_, tag)) in tags.iter().enumerate() {
         let next = tags.get(i + 1).map(|t| t.0).unwrap_or(inner);
@@ -143,6 +147,17 @@ pub fn encode_link(h: &HostCfg, inner: u16, fill: u8) -> Vec<u8> {
     out
 }
 
+/// The ether type that announces the first tag (or the IP header) - the
+/// argument of `from_ether_type` for `Link::EtherPayload` hosts.
+pub fn first_ether_type(h: &HostCfg, inner: u16) -> u16 {
+    match (h.macsec, h.vlans.first()) {
+        (Some((0, _)), _) => ETHER_MACSEC,
+        (_, Some(v)) => v.0,
+        (Some(_), None) => ETHER_MACSEC,
+        (None, None) => inner,
+    }
+}
+
 /// Offset of the IP header inside the frame.
 pub fn ip_offset(h: &HostCfg) -> usize {
     let macsec = match h.macsec {
@@ -153,6 +168,7 @@ pub fn ip_offset(h: &HostCfg) -> usize {
     match h.link {
         Link::Eth => 14 + 4 * h.vlans.len() + macsec,
         Link::Sll => 16 + 4 * h.vlans.len() + macsec,
+        Link::EtherPayload => 4 * h.vlans.len() + macsec,
         Link::BareIp => 0,
     }
 }
@@ -198,10 +214,12 @@ pub fn encode_fragment(h: &HostCfg, f: &Frag, pad: usize, ttl: u8) -> (Vec<u8>, 
                 out.push(if k == 0 { 1 } else if k == 1 { (body - 2) as u8 } else { 0 });
             }
         }
-        // fragment header
+        // fragment header; the reserved byte and the two reserved bits are
+        // "ignored on reception" (RFC 8200) and therefore set arbitrarily
+        let noise = (f.id ^ u32::from(f.off8).wrapping_mul(0x9e37)) as u16;
         out.push(f.proto);
-        out.push(0);
-        let off = (f.off8 << 3) | u16::from(f.more);
+        out.push(if noise & 0x10 != 0 { (noise >> 8) as u8 } else { 0 });
+        let off = (f.off8 << 3) | u16::from(f.more) | if noise & 0x20 != 0 { noise & 0b110 } else { 0 };
         out.extend_from_slice(&off.to_be_bytes());
         out.extend_from_slice(&f.id.to_be_bytes());
     } else {
@@ -212,7 +230,9 @@ pub fn encode_fragment(h: &HostCfg, f: &Frag, pad: usize, ttl: u8) -> (Vec<u8>, 
         out.push(ttl & 0xfc);
         out.extend_from_slice(&(total as u16).to_be_bytes());
         out.extend_from_slice(&(f.id as u16).to_be_bytes());
-        let fl = (u16::from(f.more) << 13) | (f.off8 & 0x1fff);
+        // the reserved flag bit is set arbitrarily
+        let noise = (f.id ^ u32::from(f.off8).wrapping_mul(0x9e37)) as u16;
+        let fl = (u16::from(f.more) << 13) | (f.off8 & 0x1fff) | if noise & 0x30 == 0x30 { 0x8000 } else { 0 };
         out.extend_from_slice(&fl.to_be_bytes());
         out.push(ttl);
         out.push(f.proto);
